@@ -2,6 +2,7 @@
 is_unique / count) and the not-unique path of Arc::unwrap_or_clone — into programs of coq/theories/ConcX.v
 (IDec / IInc / ILoad / IRetIfNe / IRetIfEq / IDestroyFree / IGrant / ICloneVal / IDropHandle).  Anything outside the
 small grammar becomes IUnknown (never a guess)."""
+import re
 from rustparse import *
 from extract import strip, is_path, call_path, fn_body
 
@@ -74,11 +75,16 @@ def stmts_of(block):
 def drop_prog(src):
     r = src.find_fn('arc.rs', 'Arc::drop_inner')
     if not r: return ['IUnknown']
-    out = []
+    out = []; env = {}
     try:
         st, tail = stmts_of(fn_body(r[2]))
         items = st + ([('expr', tail)] if tail is not None else [])
         for s in items:
+            if s[0] == 'let' and s[3] is not None and s[2] is None and re.match(r'^[a-z_][A-Za-z0-9_]*$', s[1].strip()):
+                # `let old = <counter access>;` : the register, under a name
+                k, o = atomic_of(s[3], src)
+                out.append('%s %s true' % (k, o)); env = {s[1].strip(): 'reg'}
+                continue
             if s[0] != 'expr': raise Unk()
             e = strip(s[1])
             if e[0] == 'block':
@@ -89,6 +95,12 @@ def drop_prog(src):
                 es = [e]
             for e in es:
                 if e[0] == 'if' and e[3] is None and is_return(e[2]):
+                    c = strip(e[1])
+                    if c[0] == 'binary' and c[1] in ('==', '!=') and strip(c[2])[0] == 'path' and len(strip(c[2])[1]) == 1 \
+                            and env.get(strip(c[2])[1][0]) == 'reg' and strip(c[3])[0] == 'lit':
+                        n = int(strip(c[3])[1].replace('_', ''), 0)
+                        out.append('IRetIfEq %d' % n if c[1] == '==' else 'IRetIfNe %d' % n)
+                        continue
                     ins, n, pos = cond_of(e[1], src, {})
                     out += ins + ['IRetIfEq %d' % n if pos else 'IRetIfNe %d' % n]
                 elif e[0] == 'mcall' and e[2] == 'drop_slow' and is_path(strip(e[1]), 'self'):
